@@ -107,6 +107,20 @@ CLAIMED = {
         "design_ref": "DESIGN.md §5 C09, §3.8",
         "note": COMMON_NOTE + "A thread that opens two transactions can deadlock (documented; excluded by the model's one-transaction-per-thread discipline). The scheduler explores the admit-readers policy only (a parked resizer is not an OS-level waiter); the blocking policy is covered by the theorem. Liveness assumes a fair OS scheduler.",
     },
+    "C13": {
+        "category": "other",
+        "technique": "Lean 4 invariant proofs on a process-level open/lock/close model (exclusion and visibility for every schedule and file state; no failure for existing files) + obligations on regenerated open step orders + forced system-call orderings between real processes through LD_PRELOAD parking; the create-path race is an OPEN known finding (D12) with a machine-checked witness",
+        "text": "Proved for any number of processes and every interleaving (Jamm/Props/C13.lean): at most one process is between lock-acquired and close and whoever is inside has seen every commit made before it got in (any initial file state); when the file exists and is initialised no process ever fails; an existing file is locked before it is mapped or read (decided on the regenerated order). Part (b,c) of the property is FALSE for a file that does not exist yet: it is created and initialised before the lock is taken (obligation create_path_not_locked decided false; create_race_witness is the two-process schedule) — listed in KNOWN_FINDINGS.txt as D12, reproduced on the real code on every run and printed as KNOWN-FINDING; any other failure, overlap or stale read is a VIOLATION. Tie: 2-4 real worker processes open the same file; the shim parks the first one inside a chosen libc call (open/write/fsync/mmap/close) until later openers have been started, plus unparked runs with random offsets and hold times; each commits a marker; monotonic timestamps of open-returned / about-to-close and the markers each opener sees are checked by the Lean driver. Category other because of the open finding.",
+        "design_ref": "DESIGN.md §5 C13, §3.8",
+        "note": COMMON_NOTE + "flock semantics (same host, not NFS) assumed; flock itself is a raw syscall invisible to the shim, its effect is observed through the timestamps.",
+    },
+    "C14": {
+        "category": "other",
+        "technique": "finite-table Lean proofs (kernel-decided) of a signature-level lifetime / Send discipline over the API table regenerated from nightly rustdoc JSON + translation-validation-style correspondence with the real rustc on generated escape programs; D13 is an OPEN known finding",
+        "text": "rustc's type checker cannot be modelled in Lean; what is proved (Jamm/Props/C14.lean, decided on the table regenerated from rustdoc JSON on every run) is the discipline the signatures follow: every public method / trait method of every handed-out type whose result can hold mapped bytes returns a transaction-bounded type, except the listed known edge BucketName -> ToBytes::to_bytes -> Bytes<'tx> (D13, open finding: safe code reads freed map memory, reproduced as SIGSEGV on every run and printed as KNOWN-FINDING); DB::tx is bounded by the handle; every handed-out type is !Send by auto-trait evaluation over the regenerated private fields; DB is Send. Correspondence: one escape program per table row, hand-written escape routes (commit/drop consumption, Tx past DB, short-lived keys/values, moving or sharing handles across threads) and positive controls are type-checked by the real rustc against the current tree; the verdict (and that rejections carry borrow/lifetime/Send error codes) is compared with the model's; programs that compile are run while the file is remapped and pages are reused and must neither fault nor see bytes change. A public method without a program template breaks the check.",
+        "design_ref": "DESIGN.md §5 C14",
+        "note": COMMON_NOTE + "Partial by construction: the region rule abstracts the borrow checker and is validated only on this corpus (variance, HRTB, drop-check not modelled); rustc and nightly rustdoc JSON (format 57) are trusted.",
+    },
 }
 
 REASON_PENDING = "check not built yet (build in progress, see DESIGN.md section 8)"
